@@ -316,34 +316,39 @@ void judge(Scene& S, pbt::Ctx& ctx) {
         auto lab = [&](const char* w, double x) { char b[96]; snprintf(b, sizeof b, "calib:%s:1e%+03d", w, x <= 0 ? -99 : (int)std::ceil(std::log10(x))); ctx.label(b); };
         lab("surfEnd", worstSurfEnd); lab("surfMid", worstSurfMid); lab("chord-arc", worstChord); lab("angle/tol", worstAngle); lab("normal", worstNormal); lab("pen", worstPen); }
 
-    // W forces: power identity, internal force system
-    const double Ld = cable.calcLengthDot(s); const double T = S.tension; const int nB = matter.getNumBodies();
-    double speed = 0; for (MobilizedBodyIndex b(0); b < nB; ++b) { SpatialVec V = matter.getMobilizedBody(b).getBodyVelocity(s); speed = std::max(speed, V[1].norm() + V[0].norm() * scale); }
-    {
-        Vector_<SpatialVec> F(nB); F = SpatialVec(Vec3(0), Vec3(0)); cable.applyBodyForces(s, T, F);
+    // W forces: power identity, internal force system  (a lambda: also applied to every state of the same-State history below)
+    const double T = S.tension; const int nB = matter.getNumBodies();
+    auto speedOf = [&](const State& st) { double sp = 0; for (MobilizedBodyIndex b(0); b < nB; ++b) { SpatialVec V = matter.getMobilizedBody(b).getBodyVelocity(st); sp = std::max(sp, V[1].norm() + V[0].norm() * scale); } return sp; };
+    struct VelData { double Ld = 0, P = 0, Pc = 0; };
+    auto checkW = [&](const State& st, const std::string& tag, VelData& out) -> bool {
+        const double Ld = cable.calcLengthDot(st), speed = speedOf(st); out.Ld = Ld;
+        Vector_<SpatialVec> F(nB); F = SpatialVec(Vec3(0), Vec3(0)); cable.applyBodyForces(st, T, F);
         double P = 0; Vec3 netF(0), netM(0);
-        for (MobilizedBodyIndex b(0); b < nB; ++b) { const MobilizedBody& mb = matter.getMobilizedBody(b); SpatialVec V = mb.getBodyVelocity(s); P += dot(F[b][0], V[0]) + dot(F[b][1], V[1]);
-            netF += F[b][1]; netM += F[b][0] + mb.getBodyOriginLocation(s) % F[b][1]; }
-        const double Pc = cable.calcCablePower(s, T);
+        for (MobilizedBodyIndex b(0); b < nB; ++b) { const MobilizedBody& mb = matter.getMobilizedBody(b); SpatialVec V = mb.getBodyVelocity(st); P += dot(F[b][0], V[0]) + dot(F[b][1], V[1]);
+            netF += F[b][1]; netM += F[b][0] + mb.getBodyOriginLocation(st) % F[b][1]; }
+        const double Pc = cable.calcCablePower(st, T); out.P = P; out.Pc = Pc;
         const double tolP = (1e-9 + 10 * tol) * T * std::max(speed, 1.0);
-        if (!(std::abs(Pc - P) <= 1e-9 * T * std::max(speed, 1.0))) { ctx.fail("calcCablePower " + fmt(Pc) + " != sum over bodies of applied force . velocity " + fmt(P)); return; }
-        if (!(std::abs(P + T * Ld) <= tolP)) { ctx.fail("power of the applied cable forces " + fmt(P) + " != -tension*lengthDot = " + fmt(-T * Ld) + " (tension " + fmt(T) + ", lengthDot " + fmt(Ld) + ")"); return; }
+        if (!(std::abs(Pc - P) <= 1e-9 * T * std::max(speed, 1.0))) { ctx.fail(tag + "calcCablePower " + fmt(Pc) + " != sum over bodies of applied force . velocity " + fmt(P)); return false; }
+        if (!(std::abs(P + T * Ld) <= tolP)) { ctx.fail(tag + "power of the applied cable forces " + fmt(P) + " != -tension*lengthDot = " + fmt(-T * Ld) + " (tension " + fmt(T) + ", lengthDot " + fmt(Ld) + ")"); return false; }
         const double tolF = (1e-9 + 10 * tol) * T;
-        if (!(netF.norm() <= tolF)) { ctx.fail("cable forces do not sum to zero: net force " + fmt(netF) + " (tension " + fmt(T) + ")"); return; }
-        if (!(netM.norm() <= tolF * scale)) { ctx.fail("cable forces have a net moment about the Ground origin " + fmt(netM) + " (tension " + fmt(T) + "): not an internal force system"); return; }
-        Vector_<SpatialVec> F0(nB); F0 = SpatialVec(Vec3(0), Vec3(0)); cable.applyBodyForces(s, -1.0, F0);
-        for (int b = 0; b < nB; ++b) if (F0[b][0].norm() + F0[b][1].norm() != 0) { ctx.fail("applyBodyForces with negative tension applied a force to body " + std::to_string(b)); return; }
-    }
+        if (!(netF.norm() <= tolF)) { ctx.fail(tag + "cable forces do not sum to zero: net force " + fmt(netF) + " (tension " + fmt(T) + ")"); return false; }
+        if (!(netM.norm() <= tolF * scale)) { ctx.fail(tag + "cable forces have a net moment about the Ground origin " + fmt(netM) + " (tension " + fmt(T) + "): not an internal force system"); return false; }
+        Vector_<SpatialVec> F0(nB); F0 = SpatialVec(Vec3(0), Vec3(0)); cable.applyBodyForces(st, -1.0, F0);
+        for (int b = 0; b < nB; ++b) if (F0[b][0].norm() + F0[b][1].norm() != 0) { ctx.fail(tag + "applyBodyForces with negative tension applied a force to body " + std::to_string(b)); return false; }
+        return true;
+    };
+    VelData vd0; if (!checkW(s, "", vd0)) return;
+    const double Ld = vd0.Ld; const double speed = speedOf(s);
 
-    // FD lengthDot = d/dt length along the motion
-    if (S.defaultTol) ctx.label("fd:skipped-loose-tolerance");
-    else {
-        const Vector q0 = s.getQ(), qd = s.getQDot(); double qdn = 0; for (int i = 0; i < qd.size(); ++i) qdn = std::max(qdn, std::abs(qd[i]));
+    // FD lengthDot = d/dt length along the motion  (a lambda as well; `contactRef` = contact pattern of the judged state)
+    auto checkFD = [&](const State& st, double LdSt, const std::vector<char>& contactRef, const std::string& tag, const std::string& lab) -> bool {
+        const double speed = speedOf(st);
+        const Vector q0 = st.getQ(), qd = st.getQDot(); double qdn = 0; for (int i = 0; i < qd.size(); ++i) qdn = std::max(qdn, std::abs(qd[i]));
         const double h = 1e-4 / std::max(1.0, qdn);
         bool bad = false, topo = false; std::string why;
-        auto lenAt = [&](double hh) { State u = s; u.updQ() = q0 + hh * qd; sys.realize(u, Stage::Position); double l = cable.calcLength(u);
+        auto lenAt = [&](double hh) { State u = st; u.updQ() = q0 + hh * qd; sys.realize(u, Stage::Position); double l = cable.calcLength(u);
             if (!(cable.getSmoothness(u) <= tol)) bad = true;
-            for (int i = 0; i < S.nObst; ++i) if ((bool)d.contact[i] != cable.isInContactWithObstacle(u, CableSpanObstacleIndex(i))) topo = true;
+            for (int i = 0; i < S.nObst; ++i) if ((bool)contactRef[i] != cable.isInContactWithObstacle(u, CableSpanObstacleIndex(i))) topo = true;
             return l; };
         auto fdAt = [&](double hh) { double lp = lenAt(hh), lm = lenAt(-hh), lpp = lenAt(2 * hh), lmm = lenAt(-2 * hh); return (8 * (lp - lm) - (lpp - lmm)) / (12 * hh); };
         // rounding/solver noise of one estimate ~ (1e-11 + 10 tol^2) * scale / h; lengthDot itself is first order in the tangent misalignment
@@ -351,20 +356,23 @@ void judge(Scene& S, pbt::Ctx& ctx) {
         double fd = 0, tolFD = tolAt(h), errEst = 0; bool exc = false, refined = false, nonsmooth = false;
         try {
             fd = fdAt(h);
-            if (!bad && !topo && !(std::abs(fd - Ld) <= tolFD)) {
+            if (!bad && !topo && !(std::abs(fd - LdSt) <= tolFD)) {
                 // near lift-off the length has large higher derivatives: refine the step and judge with a measured truncation estimate
                 refined = true; double f1 = fdAt(h / 3), f2 = fdAt(h / 9); errEst = std::abs(f2 - f1); fd = f2; tolFD = tolAt(h / 9) + 2 * errEst;
                 if (errEst > 1e-3 * std::max(speed, 1.0)) nonsmooth = true;
             }
         } catch (const std::exception&) { exc = true; }
-        if (getenv("C45_FDSCAN")) for (double hh : {1e-3, 3e-4, 1e-4, 3e-5, 1e-5, 3e-6, 1e-6}) { bool b0 = bad, t0 = topo; bad = topo = false; double v = fdAt(hh); fprintf(stderr, "FDSCAN h=%g fd5=%.10g (lengthDot %.10g) bad=%d topo=%d\n", hh, v, Ld, (int)bad, (int)topo); bad = b0; topo = t0; }
-        if (exc) ctx.label("fd:skipped-exception"); else if (topo) ctx.label("fd:skipped-topology-change"); else if (bad) ctx.label("fd:skipped-stencil-unconverged"); else if (nonsmooth) ctx.label("fd:skipped-nonsmooth");
+        if (getenv("C45_FDSCAN")) for (double hh : {1e-3, 3e-4, 1e-4, 3e-5, 1e-5, 3e-6, 1e-6}) { bool b0 = bad, t0 = topo; bad = topo = false; double v = fdAt(hh); fprintf(stderr, "FDSCAN h=%g fd5=%.10g (lengthDot %.10g) bad=%d topo=%d\n", hh, v, LdSt, (int)bad, (int)topo); bad = b0; topo = t0; }
+        if (exc) ctx.label(lab + ":skipped-exception"); else if (topo) ctx.label(lab + ":skipped-topology-change"); else if (bad) ctx.label(lab + ":skipped-stencil-unconverged"); else if (nonsmooth) ctx.label(lab + ":skipped-nonsmooth");
         else {
-            ctx.label(refined ? "fd:checked-refined" : "fd:checked");
-            if (ctx.wantDesc) ctx.desc << "lengthDot=" << Ld << " finite difference=" << fd << " h=" << (refined ? h / 9 : h) << " tolerance=" << tolFD << (refined ? " (refined; truncation estimate " + fmt(errEst) + ")" : std::string()) << "\n";
-            if (!(std::abs(fd - Ld) <= tolFD)) { ctx.fail("calcLengthDot " + fmt(Ld) + " != d(length)/dt by finite differences " + fmt(fd) + " (h=" + fmt(refined ? h / 9 : h) + ", tolerance " + fmt(tolFD) + ", all stencil states converged with the same contacts)"); return; }
+            ctx.label(lab + (refined ? ":checked-refined" : ":checked"));
+            if (ctx.wantDesc) ctx.desc << tag << "lengthDot=" << LdSt << " finite difference=" << fd << " h=" << (refined ? h / 9 : h) << " tolerance=" << tolFD << (refined ? " (refined; truncation estimate " + fmt(errEst) + ")" : std::string()) << "\n";
+            if (!(std::abs(fd - LdSt) <= tolFD)) { ctx.fail(tag + "calcLengthDot " + fmt(LdSt) + " != d(length)/dt by finite differences " + fmt(fd) + " (h=" + fmt(refined ? h / 9 : h) + ", tolerance " + fmt(tolFD) + ", all stencil states converged with the same contacts)"); return false; }
         }
-    }
+        return true;
+    };
+    if (S.defaultTol) ctx.label("fd:skipped-loose-tolerance");
+    else if (!checkFD(s, Ld, d.contact, "", "fd")) return;
 
     // R closed form when no obstacle is in contact: lengthDot = sum over straight segments of e . (v_end - v_start)
     auto stationVel = [&](const mbgen::Built& M, const State& st, int body, const Vec3& station) { return M.mb[body].findStationVelocityInGround(st, station); };
